@@ -42,8 +42,17 @@ def run_simple(cfg):
     if sampler == "minipcn":
         kw = {"n_steps": 3, "rng": np.random.default_rng(cfg["seed"])}
     kw.update(cfg.get("mcmc_opts") or {})  # burnin / thin / last_step_only (minipcn), discard (emcee)
+    import contextlib
+
+    pool_cm = contextlib.nullcontext()
+    if cfg.get("pool"):
+        from env.targets import AdversarialPool
+
+        out.pool = AdversarialPool()
+        pool_cm = a.enable_pool(out.pool, close_pool=False, parallelize_prior=cfg["pool"] == "prior")
     try:
-        res = a.sample_posterior(n_samples=cfg["N"], sampler=sampler, **pre, **kw)
+        with pool_cm:
+            res = a.sample_posterior(n_samples=cfg["N"], sampler=sampler, **pre, **kw)
         out.result = {"final": rh.snapshot_samples(res)}
         out.final_obj = res
     except Exception as e:
